@@ -53,6 +53,7 @@ class Profile:
     allow_period: bool = True
     p_near_tie: float = 0.0
     min_cont_states: int = 0
+    p_next_dependent_constraint: float = 0.15
     max_RC: int = 2
     min_RC: int = 0
     extra: dict = field(default_factory=dict)
@@ -556,6 +557,14 @@ def model_specs(draw, prof: Profile = Profile()):
             e = f"xp.clip({e}, {lo}, {hi})"
         functions[f"next_{w}"] = dict(args=list(dict.fromkeys(args)), body=e)
 
+    # a constraint on the OUTPUT of a transition function (e.g. a borrowing constraint
+    # next_wealth >= bound): the argument is a model function, not a parameter
+    if cstates and prof.p_next_dependent_constraint and d.bool(prof.p_next_dependent_constraint):
+        w = d.choice(cstates)
+        g = states[w]
+        bound = round(float(grid_nodes(g)[0]) - d.num(0.0, 0.6) * (float(grid_nodes(g)[-1]) - float(grid_nodes(g)[0])) * 0.2, 4)
+        margin = f"next_{w} - {bound} + 1.7e-06"
+        functions["nextdep_constraint"] = dict(args=[f"next_{w}"], body=f"{margin} >= 0", margin=margin)
     # near ties: a discrete choice whose only effect is a tiny utility difference, so that two
     # alternatives differ by far less than any sensible tolerance without being equal
     if prof.p_near_tie and d.bool(prof.p_near_tie):
@@ -604,6 +613,9 @@ def raw_agents(draw, n_min=1, n_max=8, p_offgrid=0.5, p_outside=0.1):
                 "frac": draw(st.lists(st.integers(1, 999), min_size=3, max_size=3)),
             }
         )
+    # per continuous state (flag read from the first agent): supply the initial values as an
+    # INTEGER-typed array of whole numbers (e.g. wealth = [10, 25, 40]), which users do
+    agents[0]["int_states"] = draw(st.lists(st.integers(0, 4).map(lambda x: x == 0), min_size=3, max_size=3))
     return agents
 
 
@@ -639,7 +651,35 @@ def materialise_agents(spec, ref, raw, on_grid_only=False, nodes_override=None):
                     v = float(nodes[0] - 0.3 * fr * span) if j % 2 == 0 else float(nodes[-1] + 0.3 * fr * span)
                 out[s].append(v)
                 ci += 1
-    return {
+    res = {
         s: np.asarray(v, dtype=(int if spec.states[s][0] == "disc" else float))
         for s, v in out.items()
     }
+    flags = raw[0].get("int_states", [False] * 3) if raw else [False] * 3
+    if not on_grid_only:
+        ci = 0
+        for s, g in spec.states.items():
+            if g[0] == "disc":
+                continue
+            lo, hi = float(grid_nodes(g)[0]), float(grid_nodes(g)[-1])
+            if flags[ci % 3] and np.ceil(lo) <= np.floor(hi):
+                res[s] = np.clip(np.round(res[s]), np.ceil(lo), np.floor(hi)).astype(np.int64)
+            ci += 1
+    return res
+
+
+def expand_agents(raw, n_total):
+    """Deterministically expand a small list of raw agents to n_total agents (varying the raw
+    material so that the batch is not a plain repetition)."""
+    out = []
+    for i in range(n_total):
+        a = dict(raw[i % len(raw)])
+        k = i // len(raw)
+        a["combo"] = a["combo"] + 7 * k
+        a["disc"] = [(x + k) % 12 for x in a["disc"]]
+        a["node"] = [(x + 3 * k) % 12 for x in a["node"]]
+        a["frac"] = [1 + (x * (k + 1) * 37) % 998 for x in a["frac"]]
+        out.append(a)
+    if raw and "int_states" in raw[0]:
+        out[0]["int_states"] = raw[0]["int_states"]
+    return out
